@@ -244,6 +244,9 @@ class C17Check(ExplainerCheck):
                 # label sets that grow when the model learns, with labels omitted by later predictions
                 cfg["model"] = {"family": "multi", "seed": rng.getrandbits(32), "labels": rng.randint(2, 4), "grow": True,
                                 "omit": rng.random() < 0.7}
+                if cfg["loss"]["family"] == "river":       # a single-value metric does not fit a label-dict model
+                    from .plan import gen_loss
+                    cfg["loss"] = gen_loss(rng, cfg["arith"], cfg["model"])
             b = Builder(rng, cfg)
             if style == "incremental":
                 prestore_ops(rng, cfg, b)
